@@ -44,6 +44,8 @@ impl FileSystem for PhysicalFS {
     }
 
     fn create_dir(&self, path: &str) -> VfsResult<()> {
+        #[cfg(feature = "verif-hooks")]
+        crate::verif_hooks::yield_point("physfs:create_dir");
         let fs_path = self.get_path(path);
         std::fs::create_dir(&fs_path).map_err(|err| match err.kind() {
             ErrorKind::AlreadyExists => {
